@@ -3,6 +3,7 @@ package props
 import (
 	"fmt"
 	"reflect"
+	"strings"
 
 	"gorgonia.org/tensor"
 	"verifharness/core"
@@ -71,6 +72,10 @@ func c05Groups(tier string) []core.Group {
 	for _, a := range c05Layouts {
 		a := a
 		gs = append(gs, core.Group{Key: "mult/" + a, Run: func(c *core.Ctx) { c05Mult(c, a) }})
+	}
+	for _, a := range []string{gen.LC, gen.LT, gen.LS, gen.LF} {
+		a := a
+		gs = append(gs, core.Group{Key: "mult-wide/" + a, Run: func(c *core.Ctx) { c05MultWide(c, a) }})
 	}
 	return gs
 }
@@ -515,6 +520,50 @@ func c05Mult(c *core.Ctx, layA string) {
 				if third != "" {
 					lays = append(lays, third)
 				}
+				c05MultCase(c, "mult/"+layA, lays, shape)
+			}
+		}
+	}
+	// negative control: the comparison must notice a wrong expectation
+	if op := c05Operand(c, gen.LC, []int{2, 3}, model.TInt16); op != nil {
+		it := tensor.MultIteratorFromDense(op.D, op.D)
+		it.Next()
+		it.Next()
+		c.Control(it.LastIndex(1) != 0)
+	}
+}
+
+// c05MultWide drives multi-iterators over operands with one long axis, so that the stride vectors of the operands are
+// numerically far apart and numerically related ([2 1] against [1 r], [w 1] against [1 r], ...): the library shares one
+// block of offsets between operands whose stride KEY is equal, and the key is a digest of the strides - two different
+// stride vectors must never be served from one block, whatever the digest.
+func c05MultWide(c *core.Ctx, layA string) {
+	lo, hi, step := 6, 72, 1
+	if c.Tier == "thorough" {
+		hi = 136
+	}
+	wide := []string{gen.LC, gen.LT, gen.LS, gen.LSS, gen.LF}
+	for r := lo; r <= hi; r += step {
+		shapes := [][]int{{r, 2}, {2, r}}
+		if r%3 == 0 || c.Tier == "thorough" {
+			shapes = append(shapes, []int{r, 3}, []int{2, r, 2})
+		}
+		for _, shape := range shapes {
+			for _, layB := range wide {
+				lays := []string{layA, layB}
+				c05MultCase(c, "mult-wide/"+layA, lays, shape)
+				if layB == gen.LT {
+					c05MultCase(c, "mult-wide/"+layA, []string{layA, layB, gen.LC}, shape)
+				}
+			}
+		}
+	}
+}
+
+func c05MultCase(c *core.Ctx, group string, lays []string, shape []int) {
+	{
+		{
+			{
 				var ops []*gen.Operand
 				ok := true
 				for _, l := range lays {
@@ -526,7 +575,7 @@ func c05Mult(c *core.Ctx, layA string) {
 					ops = append(ops, op)
 				}
 				if !ok {
-					continue
+					return
 				}
 				n := model.Size(shape)
 				wants := make([][]int, len(ops))
@@ -544,9 +593,9 @@ func c05Mult(c *core.Ctx, layA string) {
 				for i, op := range ops {
 					desc[fmt.Sprintf("strides%d", i)] = op.D.Strides()
 				}
-				caseKey := fmt.Sprintf("mult/%s/%s", name, shapeStr(shape))
-				if c.WantSample("mult/" + layA) {
-					c.Sample("mult/"+layA, desc)
+				caseKey := fmt.Sprintf("%s/%s/%s", strings.SplitN(group, "/", 2)[0], name, shapeStr(shape))
+				if c.WantSample(group) {
+					c.Sample(group, desc)
 				}
 				for _, script := range []string{"forward", "reverse", "reset"} {
 					c.Eval(core.Sig("mult", script, name, shapeStr(shape)), distinct && n > 1)
@@ -591,12 +640,5 @@ func c05Mult(c *core.Ctx, layA string) {
 				}
 			}
 		}
-	}
-	// negative control: the comparison must notice a wrong expectation
-	if op := c05Operand(c, gen.LC, []int{2, 3}, model.TInt16); op != nil {
-		it := tensor.MultIteratorFromDense(op.D, op.D)
-		it.Next()
-		it.Next()
-		c.Control(it.LastIndex(1) != 0)
 	}
 }
